@@ -41,6 +41,15 @@ class C17(Prop):
                    "terminate in the real code)"]
     modelled_not_verified = "all Rust code"
 
+    # translator tie: the subscription algebra of src/subscription.rs (compiler-expanded, translated): zip, multi (both
+    # flavours), guard drop, the blanket impl for cells — closed forms that are the clauses of Sub/Composite.lean;
+    # Subscriber (the slot as a subscription) from src/subscriber.rs
+    tie_modules = {
+        "RxModel.GenTie.Subscription": [],
+        "RxModel.GenTie.Subscriber": [],
+        "RxModel.GenTie.SubscriberThreads": [],
+    }
+
     def cases(self, tier, seed):
         rng = random.Random(seed + 17)
         base = gen_cases(rng, tier, pg.single_variants(3), 8000 if tier == "quick" else 80000)
